@@ -269,7 +269,9 @@ func (s *Service) builderBidAttempt(ctx context.Context,
 		firstBid = builderBid
 	}
 
-	if lastBid == nil || bidBetter(lastBid, builderBid) {
+	// Pass on a bid that is higher than the relay's previous one, and also one for another payload:
+	// which of them is best depends on the builder configurations, not on the value alone.
+	if lastBid == nil || bidBetter(lastBid, builderBid) || !bidsEqual(lastBid, builderBid) {
 		lastBid = builderBid
 		respCh <- &builderBidResponse{
 			bid:      builderBid,
